@@ -4,7 +4,6 @@
 package main
 
 import (
-	"bytes"
 	"fmt"
 	"strings"
 	"testing"
@@ -102,8 +101,6 @@ func dur(ns int64) string {
 	return fmt.Sprintf("%ds+%dns", s, r)
 }
 
-var ctxPool *BrokerContext
-
 // runReps runs the scenario Reps times (ties are real races: interleavings are
 // sampled by repetition) and applies check to every history.
 func runReps(t *testing.T, sc scenario, check func(h *history) error) error {
@@ -112,24 +109,17 @@ func runReps(t *testing.T, sc scenario, check func(h *history) error) error {
 		reps = 1
 	}
 	for rep := 0; rep < reps; rep++ {
-		custom := len(sc.Bridges) > 0 || sc.Allowed != "" || sc.Presumed != ""
-		var ctx *BrokerContext
-		if custom || ctxPool == nil {
-			c, err := newContext(&sc, &bytes.Buffer{})
-			if err != nil {
-				return fmt.Errorf("harness: cannot build broker context: %v", err)
-			}
-			ctx = c
-			if !custom {
-				ctxPool = c
-			}
-		} else {
-			ctx = ctxPool
+		ctx, err := cachedContext(&sc)
+		if err != nil {
+			return fmt.Errorf("harness: cannot build broker context: %v", err)
 		}
 		h := runScenario(t, ctx, &sc, nil)
-		err := check(h)
+		err = check(h)
+		if err == nil {
+			err = checkNoGhosts(h) // also keeps the cached context clean for the next case
+		}
 		if err != nil {
-			ctxPool = nil // state may be dirty
+			dropContext(&sc) // state may be dirty
 			return fmt.Errorf("repetition %d/%d: %v", rep+1, reps, err)
 		}
 	}
@@ -148,8 +138,24 @@ func runC04(t *testing.T, sc scenario) error {
 // ---------------------------------------------------------------------------
 // generator: herds at timeout boundaries mixed with prompt traffic
 
+// sidStyle turns the short unique name into a session id as proxies really send them:
+// short, 22 characters of base64, or long ids that share a long common prefix and differ
+// only at the end (pairwise distinct in every style).
+func sidStyle(t *rapid.T, sid string) string {
+	switch rapid.IntRange(0, 5).Draw(t, "sidstyle") {
+	case 0:
+		return "ymbcCMto7KHNGYlp/" + sid
+	case 1:
+		return "installation-0123456789abcdef0123456789abcdef/" + sid
+	case 2:
+		return strings.Repeat("S", 64) + sid
+	default:
+		return sid
+	}
+}
+
 func genPollEvent(t *rapid.T, at int64, sid string) event {
-	e := event{At: at, Kind: "poll", Sid: sid}
+	e := event{At: at, Kind: "poll", Sid: sidStyle(t, sid)}
 	e.NAT = rapid.SampledFrom(natWire).Draw(t, "pnat")
 	e.Type = rapid.SampledFrom(proxyTypes).Draw(t, "ptype")
 	e.Clients = rapid.SampledFrom([]int{0, 0, 8, 16, 64}).Draw(t, "clients")
@@ -217,7 +223,7 @@ func genHerdScenario(t *rapid.T) (scenario, []string) {
 	// stray answers
 	if rapid.IntRange(0, 3).Draw(t, "stray") == 0 {
 		labels = append(labels, "stray answer")
-		sc.Events = append(sc.Events, event{At: rapid.SampledFrom(grid).Draw(t, "strayat"), Kind: "answer", Sid: rapid.SampledFrom([]string{"nobody", "p1", "p2"}).Draw(t, "straysid"), Answer: "stray", Door: rapid.SampledFrom([]string{"ipc", "http"}).Draw(t, "straydoor")})
+		sc.Events = append(sc.Events, event{At: rapid.SampledFrom(grid).Draw(t, "strayat"), Kind: "answer", Sid: straySid(t, &sc), Answer: "stray", Door: rapid.SampledFrom([]string{"ipc", "http"}).Draw(t, "straydoor")})
 	}
 	for _, e := range sc.Events {
 		if e.Kind == "poll" && e.AnsMode == "delay" && e.AnsDelay >= 10*sec-1 && e.AnsDelay <= 10*sec+1 {
